@@ -33,4 +33,7 @@ CASES = [
          old="            if has_accumulation:", new="            if accumulation:")]),
     dict(expect="fire", desc="seed C08-r2/3: combine_latest gates on all(values)", names="E4-element-truthiness", edits=[dict(file="reactivex/observable/combinelatest.py",
          old="            has_value_all = has_value_all or all(has_value)", new="            has_value_all = has_value_all or all(values)")]),
+    dict(expect="fire", desc="seed C07-r5/2: take_last ring buffer skips None slots", names="E4-element-truthiness", edits=[dict(file="reactivex/operators/_takelast.py",
+         old="        q: list[_T] = []\n\n        def on_next(x: _T) -> None:\n            q.append(x)\n            if len(q) > count:\n                q.pop(0)\n\n        def on_completed():\n            while q:\n                observer.on_next(q.pop(0))",
+         new="        ring: list = [None] * count\n        seen = 0\n\n        def on_next(x: _T) -> None:\n            nonlocal seen\n            if count:\n                ring[seen % count] = x\n                seen += 1\n\n        def on_completed():\n            oldest = seen % count if count else 0\n            for x in ring[oldest:] + ring[:oldest]:\n                if x is not None:\n                    observer.on_next(x)")]),
 ]
